@@ -140,6 +140,13 @@ theorem addr_contains_iff (n : Net) (h : n.WF) (ip : Nat) :
 theorem cidr_contains_iff (n x : Net) :
     contains n (.net x) = true ↔ ∀ ip, Net.mem ip x → Net.mem ip n := C7n.cidr_contains_iff n x
 
+/-- the arithmetic of the model is the bit arithmetic `ipaddress` performs: `ip & netmask == network_address`
+with `netmask = 2^32 - 2^(32-len)`, and `broadcast = network | hostmask` -/
+theorem addr_contains_bitmask (n : Net) (hn : n.len ≤ 32) (ip : Nat) (hip : ip < 2 ^ 32) :
+    contains n (.addr4 ip) = (ip &&& (2 ^ 32 - 2 ^ (32 - n.len)) == n.addr) := by
+  simp only [contains, addrIn, Net.size, and_netmask ip (32 - n.len) hip (by omega)]
+theorem bcast_bitor (n : Net) (h : n.WF) : n.bcast = n.addr ||| n.hostmask := (or_hostmask n h).symm
+
 /-- an unparsable operand (`None`) and an IPv6 address are never contained -/
 theorem contains_none (n : Net) : contains n .none = false ∧ contains n .addr6 = false := ⟨rfl, rfl⟩
 
